@@ -12,6 +12,7 @@ import (
 	"log/slog"
 	"net"
 	"net/netip"
+	"slices"
 	"sort"
 	"strings"
 	"testing"
@@ -75,7 +76,23 @@ var shapes = map[string]shape{
 	"ede300.test.": {kind: "ok", ttls: []uint32{300}, ede: true},
 }
 
+// lookAlikes are pairs of names that differ in one octet which is not a
+// letter, the two octets being 0x20 apart like the cases of a letter.
+var lookAlikes = [][2]string{
+	{"n^a.test.", "n~a.test."},
+	{"n[a.test.", "n{a.test."},
+	{"n]a.test.", "n}a.test."},
+	{"n@a.test.", "n`a.test."},
+	{"n_a.test.", "n\\127a.test."},
+	{"n\\127b.test.", "n|127b.test."},
+}
+
 var nameList = func() (ns []string) {
+	for _, p := range lookAlikes {
+		for _, n := range p {
+			shapes[n] = shape{kind: "ok", ttls: []uint32{300}}
+		}
+	}
 	for n := range shapes {
 		ns = append(ns, n)
 	}
@@ -652,6 +669,9 @@ func ecsChoices(client netip.Addr) (cs []ecsChoice) {
 		v4("192.0.2.0", 24), v4("198.51.100.0", 24), v4("0.0.0.0", 0), v4("203.0.113.0", 24),
 		v6("2001:db8:a::", 48), v6("2001:db8:b::", 56), v6("::", 0), v4("198.18.5.0", 24),
 		{name: "bad-family", fam: 3, addr: net.IP{1, 2, 3, 0}, mask: 24},
+		// Family zero without address or prefix, the only form of it the
+		// wire format admits: no family, hence no valid option.
+		{name: "family-zero", fam: 0},
 		{name: "bits-beyond-prefix", fam: 1, addr: net.IP{192, 0, 2, 77}, mask: 24},
 		{name: "mask-too-long", fam: 1, addr: net.IP{192, 0, 2, 0}, mask: 33},
 	}
@@ -704,6 +724,14 @@ func run(s *kernel.Sim, prop, cfg string) {
 	for _, n := range nameList {
 		if t.Chance(1, 3, "use-name") {
 			names = append(names, n)
+		}
+	}
+	for _, p := range lookAlikes {
+		// Look-alikes come in pairs.
+		for k := range p {
+			if slices.Contains(names, p[k]) && !slices.Contains(names, p[1-k]) && t.Chance(3, 4, "use-look-alike") {
+				names = append(names, p[1-k])
+			}
 		}
 	}
 	if len(names) == 0 {
